@@ -66,8 +66,8 @@ Proof. exact (fun t => l003_fix_clears_mx space 1 t (le_n 1)). Qed.
 
 Theorem C17_l007_fix_clears : forall t, i_l007_check (i_l007_fix t) = [].
 Proof. exact (l007_fix_clears letter digit upper keywords_tab up_letter up_noquote up_idem). Qed.
-(* L010: check (fix t) = [] is not proved (the checker works on byte offsets of rewritten parts); it is evaluated in Coq on
-   every correspondence case and checked on the implementation by the re-lint oracle *)
+Theorem C17_l010_fix_clears : forall t, wft t -> l010_check (l010_fix t) = [].
+Proof. exact l010_fix_clears. Qed.
 
 (* ---- exact flagging, at an existing line and column ---- *)
 Theorem C17_l001_check_exact : forall t n col, wft t ->
@@ -225,6 +225,7 @@ Print Assumptions C17_l001_fix_clears.
 Print Assumptions C17_l002_fix_clears.
 Print Assumptions C17_l003_fix_clears.
 Print Assumptions C17_l007_fix_clears.
+Print Assumptions C17_l010_fix_clears.
 Print Assumptions C17_l001_check_exact.
 Print Assumptions C17_l001_location.
 Print Assumptions C17_l002_check_exact.
